@@ -1,4 +1,5 @@
 import QP.Proofs.C07Induction
+import QP.Proofs.C07Def
 import QP.Proofs.C07Pad
 import QP.Proofs.C07Witness
 /-!
@@ -171,6 +172,33 @@ theorem channel_played {pt : PT} {σ : Scope} {mm cm} {P : Pulse} {c o : Chan}
     o ∈ P.chanNames ∨ P.dur = 0 :=
   presClaim pt hs σ mm cm P hden hreg hkeep c o hc hcm
 
+/-! ## Definedness: the closed forms evaluate
+
+The theorems above say "whenever the closed form evaluates".  `create_program` skips parts that play nothing (duration
+0, count 0, empty range) without looking at the expressions in there, so the success of `denote` alone does not imply
+that the closed forms evaluate; it does if every part is actually played (`positive`). -/
+
+/-- `duration_defined` (all thirteen constructors): if every part of the template is played (`positive`), the duration
+expression evaluates -- to the (positive) duration of the denoted pulse -/
+theorem duration_defined_partial {pt : PT} {σ : Scope} {mm cm} {P : Pulse}
+    (hs : supported pt = true) (hreg : regular pt σ = true) (hpos : positive pt σ = true)
+    (hden : denote pt σ mm cm = .ok P) (hkeep : keeps pt cm = true) :
+    ∃ D, templateDuration pt σ = .ok D ∧ 0 < D ∧ D = P.dur := by
+  obtain ⟨⟨D, hD, hD0⟩, _⟩ := defClaim pt hs σ mm cm P hden hreg hpos hkeep
+  exact ⟨D, hD, hD0, duration_correct hs hreg hden hkeep hD⟩
+
+/-- `integral_defined` (all thirteen constructors): if every part of the template is played (`positive`), then
+`pt.integral[c]` evaluates for every kept channel -- to the integral of the denoted voltage.  No hypothesis about the
+closed form is left. -/
+theorem integral_defined_partial {pt : PT} {σ : Scope} {mm cm} {P : Pulse} {c o : Chan}
+    (hs : supported pt = true) (hreg : regular pt σ = true) (hpos : positive pt σ = true)
+    (hden : denote pt σ mm cm = .ok P)
+    (hinj : InjOn cm pt.definedChannels) (hc : c ∈ pt.definedChannels) (hcm : cm.lookup c = some (some o))
+    (hkeep : keeps pt cm = true) : ∃ r, integralOf pt σ c = .ok r ∧ r = plIntegral (pulseVal P o) := by
+  obtain ⟨_, h⟩ := defClaim pt hs σ mm cm P hden hreg hpos hkeep
+  obtain ⟨r, hr⟩ := h hinj c o hc hcm
+  exact ⟨r, hr, integral_correct_partial hs hreg hden hinj hc hcm hkeep hr⟩
+
 /-- the integral of a loop whose range is empty is 0, for every body (PF-09b repaired; the unrepaired code
 returned the body integral at the start index) -/
 theorem integral_empty_loop (id body idx start stop step meas cons) (σ : Scope) (c : Chan) (a b s : Int)
@@ -276,6 +304,7 @@ theorem pad_holds_last_partial {pt : PT} {σ : Scope} {mm cm} {newDur : Rat} {pa
 example : supported loopWitness = true := by decide
 example : supported emptyPartWitness = true := by decide
 example : supported jumpWitness = true := by decide
+example : positive newKindsWitness (.dict []) = true := by decide
 
 /-- the five constructors added in round 2 in one tree (`newKindsWitness`): all hypotheses of the `_partial` theorems
 hold, the template denotes a pulse and the closed forms evaluate -- to the values of the pulse -/
